@@ -52,3 +52,4 @@
 (declare-fun rtAssignableTo (Int Int) Bool)    ; reflect.Type.AssignableTo
 (declare-fun rtComparable (Int) Bool)          ; reflect.Type.Comparable
 (declare-fun fIsInf (Int) Bool)   ; math.IsInf(f, 0) on a float value
+(declare-fun rvConvertOp (Int Int) Int)   ; reflect.Value.Convert of a value of statically unknown kind
